@@ -59,7 +59,7 @@ type qty struct {
 }
 
 type act struct {
-	A string `json:"a"` // Pod | Flip | RecPG | RecQ
+	A string `json:"a"` // Pod | Del | Flip | RecPG | RecQ
 	I int    `json:"i"`
 }
 
@@ -302,6 +302,10 @@ func (w *world) event(a act) map[string]any {
 		pod.Status = *status
 		fail(w.c.Status().Update(ctx, &pod)) // pods have a status sub-resource in the fake client
 		ev["st"] = ns_
+	case "Del": // the pod object disappears (garbage collection, scale-down, eviction)
+		w.st[a.I-1] = "X"
+		fail(w.c.Delete(ctx, &v1.Pod{ObjectMeta: metav1.ObjectMeta{Namespace: ns, Name: pname(a.I)}}))
+		ev["st"] = "X"
 	case "Flip":
 		g := a.I
 		w.pre[g-1] = !w.pre[g-1]
@@ -399,7 +403,7 @@ func runOne(out emitter, scheme *runtime.Scheme, sc *scenario, settleMode int) {
 	out.Emit(map[string]any{"ev": "Scenario", "id": sc.ID, "class": "history", "par": sc.Par, "gq": sc.Gq, "pgof": sc.Pgof, "preq": sc.Preq, "pre": sc.Pre,
 		"via": sc.Via, "hist": histString(sc.Hist), "settle": settleMode})
 	for _, a := range hist {
-		if a.A == "Pod" && w.st[a.I-1] == "D" {
+		if (a.A == "Pod" && (w.st[a.I-1] == "D" || w.st[a.I-1] == "X")) || (a.A == "Del" && w.st[a.I-1] == "X") {
 			continue
 		}
 		out.Emit(w.event(a))
@@ -435,7 +439,9 @@ func randomScenario(r *rand.Rand, id string, maxLen int) *scenario {
 	}
 	n := 2 + r.Intn(maxLen-1)
 	for i := 0; i < n; i++ {
-		switch r.Intn(7) {
+		switch r.Intn(8) {
+		case 7:
+			sc.Hist = append(sc.Hist, act{"Del", 1 + r.Intn(np)})
 		case 0, 1, 2:
 			sc.Hist = append(sc.Hist, act{"Pod", 1 + r.Intn(np)})
 		case 3:
